@@ -26,6 +26,8 @@ func runC12(c *Ctx) {
 	ruleDerivedSignatures(c)
 	ruleIsNilMeansNull(c, "R12.f")
 	rulePayloadStores(c, "R12.f")
+	// the derived commands read the reply of the command they are built on
+	ruleDispatcherHandsReplyOn(c, "R12.i")
 	// "counters reject non-integers and overflow" presupposes that the integer decoding itself does
 	ruleNumericAccessorsAs(c, "R12.g")
 	ruleValueRejections(c, "R12.h", derivedCommands...)
